@@ -10,7 +10,7 @@ TB = ("Trusted base: Lean 4.33 kernel, axioms propext/Classical.choice/Quot.soun
 CLAIMS = {
  "C01": ("Lean theorems over the model of compute_swap: closed form of the gross output, exact characterisation of the "
          "deviation (inWindow, one unit), C01 outside the window / for shallow pools / with non-zero commission, and the proved "
-         "negation of the full statement (witnesses incl. the input a repository test pins). Correspondence: compute_swap family with an in-window solver. "
+         "negation of the full statement (witnesses incl. the input a repository test pins). System level (C03W.swap_product): every successful swap through any entry point that is not in the window keeps the product of the pair's actual reserves and keeps positive reserves positive. Correspondence: compute_swap family with an in-window solver, world families swap/route. "
          "The full property is false of the code (known finding KF-SWAP-WINDOW); a proof is the right level because the failing region has relative width 1e-18.",
          "§6 C01, §7 D1", "Lean 4 proof (closed form + window characterisation) + differential correspondence"),
  "C04": ("Lean theorems: refund bracket r·a/S − r/1e18 − 1 < x ≤ r·a/S, refund ≤ reserve, totality on legal burns, exact success characterisation. "
@@ -52,7 +52,7 @@ CLAIMS = {
          "NoLowExt for identifiers with bytes ≥ 2, necessity of the hypothesis, sortedness preserved by insertion. Correspondence: read_pairs over real storage, world family factory.",
          "§6 C19", "Lean 4 proof (list algorithm, termination, completeness) + differential correspondence"),
  "C03": ("Lean theorems: the share-value order NonDecr is reflexive and transitive (so it lifts to histories), and is preserved by provisions (share formula), withdrawals (refund formula), out-of-window swaps (pricing function, commission kept), "
-         "donations and holder burns; the unrestricted statement is refuted by a proved witness (same root cause as C01, known finding KF-SWAP-WINDOW), so the history theorem is `partial`: every ingredient but in-window swaps. "
+         "donations and holder burns; the unrestricted statement is refuted by a proved witness (same root cause as C01, known finding KF-SWAP-WINDOW), and at system level (C03W): every operation of every external actor either keeps the share value of a pair or performs an in-window swap on it, preserving an inductive invariant; lifted to all finite histories (history_nondecr = C03_partial: the full statement minus exactly the in-window swaps). "
          "Correspondence + oracle: after every step of every world family (accepted or rejected) reserve0*reserve1/S^2 of every pair is compared by exact cross-multiplication on the implementation's own ledger.",
          "§6 C03, §7 D1", "Lean 4 proof (order preserved by every pricing function; composition) + differential correspondence on cw-multi-test"),
  "C07": ("Lean theorems over the world model, for every operation kind: frame (no account outside Touched changes any balance), allowance frame (bystanders' allowances are never consumed), "
@@ -61,7 +61,7 @@ CLAIMS = {
          "Correspondence + oracle: the full ledger is diffed around every step of the world families against the permitted set.",
          "§6 C07", "Lean 4 proof (frame + conservation by induction over ledger primitives) + differential correspondence on cw-multi-test"),
  "C13": ("Lean theorems: exact meaning of the route-shape check (the asks produced and never consumed later; accepted iff exactly one), empty and two-output routes rejected; every hop spends the router's whole balance of its offer asset and leaves none; "
-         "single-hop pass-through: the recipient receives exactly the router's quote, the input is consumed, the router keeps nothing, nothing else reaches the recipient. The multi-hop induction is not yet proved (partial). "
+         "pass-through for any number of hops (C13W.route_passthrough, by induction over the hop list, cyclic routes included): under pairwise distinct pairs and an otherwise empty router the recipient receives exactly the router's quote for the same state, every route asset ends at zero in the router, nothing else reaches the recipient. "
          "Correspondence + oracle: world family route (1-4 hops, both entry points) compares the recipient's gain with the router's own simulation and checks the router's balances are zero afterwards.",
          "§6 C13", "Lean 4 proof (route shape + per-hop pass-through) + differential correspondence on cw-multi-test"),
  "C17": ("Lean theorems: the registry invariant RegOK (keys sorted, records keyed by their own assets, record = pair self-description, distinct pairs) is preserved by creation, by decimals re-registration for any number of pairs, and by every other operation; "
